@@ -1,11 +1,11 @@
 package rules
 
 import (
-	"os"
 	"fmt"
 	"go/constant"
 	"go/token"
 	"go/types"
+	"os"
 	"regexp"
 	"strings"
 	"tinkverif/bounds"
@@ -523,7 +523,9 @@ func c05Log(c *Ctx) {
 			key := "C05.log/" + fid
 			id := call.Call.Args[0]
 			idChain := ownerChain(id)
-			if len(idChain) < 2 {
+			// the key ID itself handed back by a verdict helper: pt, keyID, ok := m.decryptWithAny(…)
+			_, idFromHelper := guard.Strip(id).(*ssa.Extract)
+			if len(idChain) < 2 && !idFromHelper {
 				r.Bad("C05.log", key, p.Pos(ins.Pos()), "logged key ID is not read from a primitive/key-ID pair object ("+valName(id)+")")
 				return
 			}
@@ -559,7 +561,11 @@ func c05Log(c *Ctx) {
 				// the pair is handed back by a verdict helper: p, ok := m.verifyWithMatching(…); ok —
 				// inside the helper every `return x, true` is dominated by the success of an
 				// operation on that very x
-				for _, o := range owners {
+				cands := owners
+				if idFromHelper {
+					cands = append([]ssa.Value{id}, owners...)
+				}
+				for _, o := range cands {
 					ov := guard.Strip(o)
 					// a struct value kept in a local: the one value stored into it
 					if al, isAl := ov.(*ssa.Alloc); isAl {
